@@ -6,8 +6,8 @@ import re,sys
 p='/repo/rib/verif_contracts.go'
 s=open(p).read()
 T={
- r'RIB\.AddEntry':['fatal'],
- r'RIB\.addEntryInternal':['fatal-unknown-ni','answered-or-held'],
+ r'RIB\.AddEntry':['fatal','fatal-only-if'],
+ r'RIB\.addEntryInternal':['fatal-unknown-ni','fatal-only-if','answered-or-held'],
  r'RIB\.DeleteEntry':['own-id-fail','held-untouched'],
  r'RIBHolder\.Add(IPv4|IPv6|MPLS|NextHopGroup|NextHop)':['nil','err-not-installed','no-trace'],
  r'RIBHolder\.Delete(IPv4|IPv6|MPLS|NextHopGroup|NextHop)':['nil','err-not-removed','no-trace'],
